@@ -7,6 +7,7 @@
 import DateutilVerif.Proofs.RRuleFilter
 import DateutilVerif.Proofs.RRuleConstruct
 import DateutilVerif.Proofs.RRuleRefine
+import DateutilVerif.Proofs.RRuleTimes
 
 namespace RRule
 open Cal
@@ -19,41 +20,38 @@ structure DailyArgs (a : Args) : Prop where
   byweekno : a.byweekno = none
   byeaster : a.byeaster = none
   bysetpos : a.bysetpos = none
-  byhour : a.byhour = none
-  byminute : a.byminute = none
-  bysecond : a.bysecond = none
   monthday_nz : ∀ x ∈ a.bymonthday.getD [], x ≠ 0
 
 variable {a : Args} {r : Rule}
 
-theorem daily_rule (da : DailyArgs a) (h : construct a = .ok r) :
-    r = { freq := 3, interval := a.interval, wkst := a.wkst.getD 0,
-          dtstart := { a.dtstart with us := 0 }, tz := a.tz, count := a.count, untilDT := a.untilDT,
-          bysetpos := none, bymonth := a.bymonth.map sortedSet, bymonthday := bymonthdayOf a,
-          bynmonthday := bynmonthdayOf a, byyearday := a.byyearday.map sortedSet,
-          byeaster := none, byweekno := none,
-          byweekday := byweekdayOf a, bynweekday := bynweekdayOf a,
-          byhour := some [a.dtstart.hh], byminute := some [a.dtstart.mm], bysecond := some [a.dtstart.ss],
-          timeset := some [(a.dtstart.hh, a.dtstart.mm, a.dtstart.ss)] } := by
+/-- the normalised rule of a DAILY argument set, up to the three unit lists -/
+abbrev dailyRuleOf (a : Args) (bh bm bs : Option (List Int)) : Rule :=
+  { freq := 3, interval := a.interval, wkst := a.wkst.getD 0,
+    dtstart := { a.dtstart with us := 0 }, tz := a.tz, count := a.count, untilDT := a.untilDT,
+    bysetpos := none, bymonth := a.bymonth.map sortedSet, bymonthday := bymonthdayOf a,
+    bynmonthday := bynmonthdayOf a, byyearday := a.byyearday.map sortedSet,
+    byeaster := none, byweekno := none,
+    byweekday := byweekdayOf a, bynweekday := bynweekdayOf a,
+    byhour := bh, byminute := bm, bysecond := bs,
+    timeset := some (Spec.RRule.timesOf a none none none) }
+
+theorem daily_rule (da : DailyArgs a) (h : construct a = .ok r) : ∃ bh bm bs, r = dailyRuleOf a bh bm bs := by
+  have hts := construct_timeset a r h (by rw [da.freq]; omega)
   obtain ⟨sp, bh, bm, bs, ts, h1, h2, h3, h4, h5, rfl⟩ := construct_ok a r h
-  have hv := da.valid
-  unfold DT.Valid at hv
+  dsimp only at hts
+  subst hts
   simp only [normBysetpos, da.bysetpos] at h1
-  simp only [normUnit, da.byhour, da.byminute, da.bysecond, da.freq] at h2 h3 h4
-  injection h1 with h1; injection h2 with h2; injection h3 with h3; injection h4 with h4
-  subst h1; subst h2; subst h3; subst h4
-  have hmk : mkTime a.dtstart.hh a.dtstart.mm a.dtstart.ss = .ok (a.dtstart.hh, a.dtstart.mm, a.dtstart.ss) := by
-    unfold mkTime; rw [if_pos (by omega)]
-  simp [timesetOf, da.freq, buildTimeset, productHMS, checkTimes, hmk, sortBy, insertBy] at h5
-  subst h5
-  simp [da.freq, da.byweekno, da.byeaster, bymonthOf]
+  injection h1 with h1; subst h1
+  exact ⟨bh, bm, bs, by simp [dailyRuleOf, da.freq, da.byweekno, da.byeaster, bymonthOf]⟩
 
 theorem daily_cuts (da : DailyArgs a) (h : construct a = .ok r) : CutsAgree a r := by
-  rw [daily_rule da h]; exact ⟨rfl, rfl, rfl⟩
+  obtain ⟨bh, bm, bs, hr⟩ := daily_rule da h
+  rw [hr]; exact ⟨rfl, rfl, rfl⟩
 
 theorem daily_simple (da : DailyArgs a) (h : construct a = .ok r) : SimpleRule r := by
   have hd := construct_nth_demoted a r h (by rw [da.freq]; omega)
-  rw [daily_rule da h] at hd ⊢
+  obtain ⟨bh, bm, bs, hr⟩ := daily_rule da h
+  rw [hr] at hd ⊢
   refine ⟨rfl, ?_, rfl⟩
   dsimp only at hd ⊢
   rcases hd with hd | hd <;> rw [hd] <;> rfl
@@ -188,7 +186,8 @@ theorem simpleOk_eq_dateOk (da : DailyArgs a) (h : construct a = .ok r) (ord : I
     simpleOk r ord = Spec.RRule.dateOk a ord := by
   obtain ⟨_, hv, _⟩ := toOrdinal_fromOrdinal ord ho
   obtain ⟨_, _, hd1, hd2⟩ := hv
-  rw [daily_rule da h]
+  obtain ⟨bh, bm, bs, hr⟩ := daily_rule da h
+  rw [hr]
   unfold simpleOk Spec.RRule.dateOk
   dsimp only
   have hmonths : Spec.RRule.months a = a.bymonth.getD [] := by
